@@ -7,6 +7,9 @@ import Bptk.Core.C19
   rt <0|1>                                 session after store/unstore (1 = compressed)
   cs / cr                                  compressed settings / results as written by the adapter
   res <0|1>                                session results served from the restored session
+  pk <0|1> <i0,i1,...|->                   the settings part as written by the pickler when step n logged the settings
+                                           object with identity i_n: which entries are `py/id` back-references and to
+                                           what; rt = unpickler restores it; plain = what a plain JSON reader would do
 Rows and columns are printed sorted by path (dictionary order is not part of the property). -/
 open Bptk.C19
 
@@ -46,6 +49,64 @@ def fmtRes (r : List (Path × List (Time × Val))) : String :=
   String.join ((sortBy (·.1) r).map fun (p, ser) =>
     s!"{p}[" ++ ",".intercalate (ser.map fun (k, v) => s!"{k}={v}") ++ "]")
 
+/-- object number ↦ path, numbering as the pickler does (depth first, dict/list objects only) -/
+partial def walkJ (j : J) (path : String) (n : Nat) (acc : List (Nat × String)) : Nat × List (Nat × String) :=
+  match j with
+  | .atom _ => (n, acc)
+  | .ref _ => (n, acc)
+  | .obj l kids =>
+    let rec go (k : JKids) (pos : Nat) (n : Nat) (acc : List (Nat × String)) : Nat × List (Nat × String) :=
+      match k with
+      | .nil => (n, acc)
+      | .cons key v rest =>
+        let name := if l then toString pos else match key with | .num t => toString t | .str s => s
+        let (n1, acc1) := walkJ v (path ++ "/" ++ name) n acc
+        go rest (pos + 1) n1 acc1
+    go kids 0 (n + 1) ((n, path) :: acc)
+
+def kidsList : JKids → List (Sc × J)
+  | .nil => []
+  | .cons k v r => (k, v) :: kidsList r
+
+def scStr : Sc → String
+  | .num t => toString t
+  | .str s => s
+
+def fmtPickle (compress : Bool) (j : J) : String :=
+  let tab := (walkJ j "" 0 []).2
+  let target (n : Nat) : String := "^" ++ ((tab.lookup n).getD "?")
+  match j with
+  | .obj false kids =>
+    if compress then
+      let cols := (kidsList kids).filterMap fun (k, v) => match k, v with
+        | .num p, .obj true es =>
+          some (p.toNat, s!"{p}[" ++ ",".intercalate ((kidsList es).map fun (_, e) => match e with
+            | .obj true (.cons _ (.atom (.num i)) (.cons _ v .nil)) =>
+              s!"{i}=" ++ (match v with
+                | .atom (.str x) => x
+                | .obj true (.cons _ (.atom (.str x)) .nil) => x
+                | .ref n => target n
+                | _ => "?")
+            | _ => "?") ++ "]")
+        | _, _ => none
+      String.join ((sortBy (·.1) cols).map (·.2))
+    else
+      ",".intercalate ((kidsList kids).map fun (k, v) => scStr k ++ ":" ++ (match v with
+        | .ref n => target n
+        | .obj _ _ => "obj"
+        | .atom _ => "?"))
+  | _ => "?"
+
+def pickleLine (compress : Bool) (ident : Nat → Nat) (s : Session) : String :=
+  let st := store compress s
+  let j := settingsJ ident st
+  let e : Envelope := { id := 0, timeout := 0, step := s.step, stored := st }
+  let rt := if (pickleCodec ⟨true⟩ ident).dec ((pickleCodec ⟨true⟩ ident).enc e) == some e then "ok" else "FAIL"
+  let pl := match (pickleCodec ⟨false⟩ ident).dec ((pickleCodec ⟨false⟩ ident).enc e) with
+    | some e' => if e' == e then "same" else "differs"
+    | none => "differs"
+  s!"{fmtPickle compress j};rt={rt};plain={pl}"
+
 def stepLine (s : Option Session) (line : String) : Option Session × String :=
   match line.trimAscii.toString.splitOn " ", s with
   | ["begin", ps, a, d, z], _ =>
@@ -62,6 +123,10 @@ def stepLine (s : Option Session) (line : String) : Option Session × String :=
   | ["rt", b], some s => (some s, fmtSession (unstore (store (b == "1") s)))
   | ["cs"], some s => (some s, fmtCS (compressSettings s.settingsLog))
   | ["cr"], some s => (some s, fmtCR (compressResults s.resultsLog))
+  | ["pk", b, ids], some s =>
+    match parseNats ids with
+    | some ids => (some s, pickleLine (b == "1") (fun i => ids.getD i (1000000 + i)) s)
+    | none => (some s, "bad-op")
   | ["res", b], some s => (some s, fmtRes (sessionResults (unstore (store (b == "1") s))))
   | _, _ => (s, "bad-op")
 
